@@ -24,6 +24,17 @@ CHECKS["C16"] = dict(
     technique="Lean 4 theorems (induction over region/resize folds) + exhaustive/random differential tie under ASan",
     ref="§5 C16")
 
+CHECKS["C15"] = dict(
+    text="For each of the 21 value types (glyph, character set, the four colour kinds and the variant, four effects, attribute, element, string, point, extent, rectangle, control sequence, key sequence, virtual key, mouse event) the comparison operators are transcribed as the C++ defines them (defaulted <=> = lexicographic in declaration order, variant index first; glyph's three hand-written operators over the explicit 3-byte storage) and Lean proves: == is an equivalence, < is a strict total order whose 'neither less' is ==, <=> agrees with both, and == implies equal hash trees; plus: two valid glyphs that print the same bytes in the same set are ==. Generic closure lemmas (lexicographic product, sum, list, pullback) carry the instances. Operators and hash folds are tied to the real ones on exhaustive lattices of pairs/triples incl. differing unused storage.",
+    note="Lean kernel; axioms propext, Classical.choice, Quot.sound; boost::hash_combine/hash_range are not modelled: the model's hash tree (the sequence of values read) is folded by the executor with the real boost functions and compared with the real hash_value; laws hold for all storage contents, the storage-independence theorem needs well-formed UTF-8 glyphs (counterexample proved otherwise).",
+    technique="Lean 4 theorems (generic lawful-comparison closure lemmas + glyph by hand); exhaustive lattice differential tie",
+    ref="§5 C15")
+CHECKS["C10"] = dict(
+    text="parse_element/encode/_ete are modelled state by state (38 handler states, every arithmetic wart); Lean proves: every list of spellings (directives in any order/redundancy, any designator alias, either hex case; glyph literal, \\\\, \\Cnnn, \\Uxxxx) decodes to exactly what the documented language says it denotes; the canonical markup of every expressible element string decodes to that string (library equality); text without backslashes decodes to itself; \\U v yields the UTF-8 encoding of v for all v < 65536; reset and persistence laws; termination of the loop. Tied to the real decoder by exhaustive state x byte sweeps, all \\C, \\U, colour directive values, and random spellings judged by the Ref semantics.",
+    note="Lean kernel; axioms propext, Quot.sound (Classical.choice in two corollaries); equality is the library's operator== (unused glyph storage is carried along by the decoder and never observed; proved as C10_storage_is_carried); Tpp.Ref.Markup is a hand transcription of the documented language.",
+    technique="Lean 4 theorems (induction over spelling lists, per-state lemmas) + exhaustive state-byte differential tie",
+    ref="§5 C10")
+
 NOT_YET = {}
 
 
